@@ -1711,19 +1711,21 @@ fn oracle(c: &Case, ctx: &mut Ctx) -> CaseResult {
 
 fn main() {
 	let mut c = Check::new("C16", "exploration");
-	c.assume("graphs are built through NetworkGraph::update_channel_from_unsigned_announcement / update_channel_unsigned / update_node_from_unsigned_announcement (no signatures); the validator reads the resulting read-only view, so rejected updates are simply absent");
-	c.assume("first hops are usable ChannelDetails (is_usable, scid set) as ChannelManager::list_usable_channels would return; joint limit of a first hop = next_outbound_htlc_limit_msat");
-	c.assume("limits are counted per channel direction (HTLCs in opposite directions do not compete); htlc_maximum, capacity, hint and blinded maxima are all counted jointly over the parts sharing the edge, as the property states");
+	c.assume("graphs are built through NetworkGraph::update_channel_from_unsigned_announcement / update_channel_unsigned / update_node_from_unsigned_announcement (no signatures; UTXO lookup supplies the capacity or is absent); the validator reads the resulting read-only view, so rejected updates are simply absent");
+	c.assume("first hops are usable ChannelDetails (is_usable, scid set) as ChannelManager::list_usable_channels would return; joint limit of a first hop = next_outbound_htlc_limit_msat; routes must use outbound_scid_alias when set");
+	c.assume("limits are counted per channel direction (HTLCs in opposite directions do not compete); htlc_maximum, capacity, hint and blinded maxima are all counted jointly over the parts sharing the edge, as the property states; where a later edge's htlc_minimum lifted an amount the maximum is checked on the amount without that lift (the property's stated tolerance)");
+	c.assume("RouteHop::fee_msat semantics as documented: fee for the use of the next channel, last hop = amount paid (blinded tail: fee of the whole blinded path); forwarding fee per BOLT 7 = base + floor(amount_forwarded * ppm / 1e6) of the outgoing direction; any amount above need must be explained by the edge's own htlc_minimum");
 	c.assume("in-flight HTLCs are passed the only way the API allows (ScorerAccountingForInFlightHtlcs); the property does not state that they are subtracted from capacity, so the validator does not subtract them");
 	c.assume("blinded payinfo htlc_minimum/maximum apply to the value seen by the recipient (documented on BlindedPayInfo); one-hop blinded paths carry no fee/limits (documented as ignored)");
-	c.assume("completeness is asserted only in the strong-slack regime: <=12 graph nodes, no fee/CLTV cap, default path length, nothing excluded, zero-penalty scorer, MPP not allowed, channels with both directions announced, and a reference path (<=6 edges) whose every limit covers value + the compounded cost bound of any cheaper alternative");
-	c.assume("trampoline routes are not generated; route-hint scids never collide with announced scids");
+	c.assume("the harness is built with debug assertions: three library assertions inside find_route (router.rs:896 path length, :2602 and :3828 liquidity bookkeeping) fire before a route is returned; a build without them showed the returned routes then violate the corresponding clause, so they are classified as failures of that clause (cause-specific keys where the inputs have the known shape, generic keys otherwise); any other panic is a failure");
+	c.assume("completeness is asserted only where no limit is binding: <=12 graph nodes, no fee/CLTV cap, default path length, nothing excluded, zero-penalty scorer, no in-flight HTLCs, MPP not allowed, channels with both directions announced, a reference path (<=6 edges) whose every limit covers value + the compounded cost bound C of any cheaper alternative and on which (value + C) * ppm stays below 2^63, and no usable edge anywhere whose effective maximum (for the requested saturation shift or shift 0) lies in [value, 2 * (value + C)]");
+	c.assume("trampoline routes, unknown required feature bits and route-hint scids colliding with announced scids are not generated");
 	c.part(
 		PartSpec {
 			name: "validity",
-			rule: "graph of 2-40 nodes + 40 queries with every parameter varied; a query is non-trivial if the returned route has a path of >=2 hops with some constraint (min, max, capacity, fee cap, CLTV cap) within 1% of binding, or is multi-path sharing a channel",
-			quick_cases: 20_000,
-			thorough_cases: 600_000,
+			rule: "graph of 2-40 nodes (parallel channels, cycles, per direction enabled/disabled/missing, zero to extreme fees, capacity known or not) + scorer history + 40 queries with every parameter varied (first hops, 1-3 hop route hints, 1-3 hop blinded paths, amounts around each limit +-1 up to beyond all satoshis, path count/length/CLTV/fee caps, saturation power, failed channels and blinded paths, fixed / probabilistic scorer with and without in-flight HTLCs); every Ok route goes through the validator; a query is non-trivial if the returned route has a path of >=2 hops with some constraint (min, max, capacity, fee cap, CLTV cap) within 1% of binding, or is multi-path sharing a channel",
+			quick_cases: 40_000,
+			thorough_cases: 1_600_000,
 			max_shrink: 600,
 		},
 		case_strat(40, 40, false),
@@ -1732,9 +1734,9 @@ fn main() {
 	c.part(
 		PartSpec {
 			name: "completeness",
-			rule: "graph of 2-12 nodes + 24 queries inside the slack regime; non-trivial if an own search finds a single strong-slack path of >=2 edges (then find_route must return Ok, and the route is validated as well)",
-			quick_cases: 12_000,
-			thorough_cases: 400_000,
+			rule: "graph of 2-12 nodes + 24 queries inside the slack regime (see assumptions); every Ok route is validated; non-trivial if an own depth-first search finds a single strong-slack reference path of >=2 edges with no near-binding edge anywhere: then find_route must not report failure",
+			quick_cases: 25_000,
+			thorough_cases: 1_000_000,
 			max_shrink: 600,
 		},
 		case_strat(12, 24, true),
